@@ -4,6 +4,7 @@ mod engine;
 mod ep;
 mod fq;
 mod hs;
+mod net;
 mod refcodec;
 mod sim;
 
@@ -165,6 +166,40 @@ fn cmd_c19(args: &[String]) {
     println!("{}", serde_json::json!({"vectors": vectors.len(), "ok": evs.iter().filter(|e| e["res"] == "ok").count()}));
 }
 
+fn cmd_net(args: &[String]) {
+    let inp = arg(args, "--in").expect("--in");
+    let out = arg(args, "--out").expect("--out");
+    let dir = arg(args, "--dir").expect("--dir");
+    let scripts = read_ndjson(&inp);
+    engine::install_panic_hook();
+    let _ = std::fs::create_dir_all(&dir);
+    let rt = tokio::runtime::Builder::new_multi_thread().worker_threads(2).enable_all().build().unwrap();
+    let mut f = std::io::BufWriter::new(std::fs::File::create(&out).expect("create out"));
+    let mut n = 0usize;
+    rt.block_on(async {
+        for sc in scripts.iter() {
+            let tr = match tokio::time::timeout(std::time::Duration::from_secs(180), net::run_net_scenario(sc, &dir)).await {
+                Ok(t) => t,
+                Err(_) => vec![serde_json::json!({"ev":"reset","scen":sc["scen"],"sock":sc["sock"],"tag":"","fds":0,"tasks":0}), serde_json::json!({"ev":"scenario_timeout"}), serde_json::json!({"ev":"end","tasks_left":0})],
+            };
+            let mut tr = tr;
+            let endev = tr.pop();
+            for p in engine::take_panics() {
+                tr.push(serde_json::json!({"ev":"panic","msg":p}));
+            }
+            tr.extend(endev);
+            for mut e in tr {
+                n += 1;
+                engine::sanitize(&mut e);
+                e["i"] = serde_json::json!(n);
+                writeln!(f, "{}", e).unwrap();
+            }
+            f.flush().unwrap();
+        }
+    });
+    println!("scenarios={} events={}", scripts.len(), n);
+}
+
 fn main() {
     let args: Vec<String> = std::env::args().collect();
     match args.get(1).map(|s| s.as_str()) {
@@ -175,6 +210,7 @@ fn main() {
         Some("c03") => cmd_c03(&args),
         Some("c04") => cmd_c04(&args),
         Some("c19") => cmd_c19(&args),
+        Some("net") => cmd_net(&args),
         _ => {
             eprintln!("usage: zv run --in scripts.ndjson --out trace.ndjson");
             std::process::exit(2);
